@@ -19,7 +19,7 @@ def check(tree, rep, tier='quick', seed=0):
                        'against the statically built catalogue of the same year. No definition is executed.')
     rep.rule_text = ('obligation = one reference (rule, definition, reference key) on some path; distinct = distinct '
                      '(rule, key); R10.1 inputs, R10.2 lines, R10.3 absent forms, R10.4 thresholds, R10.5 enum identity, '
-                     'R10.6 receivers/callees, R10.7 Python names, R10.8 cross-year imports, R10.9 s.form() availability')
+                     'R10.6 receivers/callees, R10.7 Python names, R10.8 cross-year imports, R10.9 s.form() availability, R10.10 returned value type = declared line type')
     rep.exhaustive = True
     rep.assumptions = ['integer inputs used to build names (e.g. number_dependents) are >= 0',
                        'a path is every syntactic path not contradicted by constants fixed at form-construction time (instance, loop constants) or by an earlier test of the same condition',
@@ -126,6 +126,9 @@ def check(tree, rep, tier='quick', seed=0):
                 rep.ob('R10.6', f'{d.key}@{norm_stmt(o.node)}:{o.exc}', False, f'{d.key}: {o.exc} {o.detail}', f'{o.rel}:{getattr(o.node, "lineno", 0)}')
     for (dk, site) in thr_sites:
         rep.ob('R10.4', f'{dk}@{site}', True)
+    # ---- R10.10 the value a definition returns has the type its line declares (otherwise the choke point of
+    #      TypedField.value raises a TypeError instead of storing a value: the solve aborts in the middle)
+    n_typed = _r1010(an, rep)
     # ---- R10.9  s.form('F') availability
     _r109(an, rep)
     # ---- R10.7 names, R10.8 imports (module level, all form modules)
@@ -283,3 +286,72 @@ def _names(rel, mod, ns, cat, rep):
         for ch in tab.get_children():
             walk(ch)
     walk(st)
+
+
+def _r1010(an, rep):
+    """Static result types (sa/statictypes.py): the set of Python types each returned expression can have,
+    with Python's numeric promotion and sum([]) == 0 (an int) when the per-copy list can be empty; the
+    empty case is dropped when the path guards contradict it (constant folding + exact linear infeasibility).
+    A line nothing reads and no form requires is never evaluated: noted, not reported."""
+    from ..lineabs import decl_type
+    from ..statictypes import types_of, nonempty_counts, empty_case_feasible
+    demanded = set()
+    for d in an.defs.values():
+        for (y, fname, line) in an.demand_edges(d):
+            demanded.add((y, fname, line))
+    n = 0
+    for d in an.defs.values():
+        if d.fr.cls.is_sub_named('InputForm'):
+            continue
+        try:
+            dt, _meta = decl_type(d.rec, 'v')
+        except Exception:
+            continue
+        if dt not in ('float', 'int', 'bool', 'str'):
+            continue
+        required = any(r is d.rec for r in d.fr.required)
+        live = required or (d.year, d.fr.name, d.name) in demanded
+        bad_paths = []
+        for p in d.paths:
+            if p.outcome.kind != 'ret':
+                continue
+            v = p.outcome.value
+            if v is None or (isinstance(v, str) and v == ''):
+                continue
+            if isinstance(v, (tuple, list)):
+                continue
+            ts = types_of(v, nonempty_counts(p.guards))
+            bad = {t for t in ts if t is not None and t != dt and t != 'none'}
+            if not bad:
+                continue
+            full = types_of(v, _ALL)
+            if bad <= {'int'} and not ({t for t in full if t is not None and t != dt and t != 'none'}):
+                # the int arises only from an empty per-copy sum
+                if not empty_case_feasible(v, p.guards):
+                    continue
+                bad_paths.append((p, 'int 0 when there are no copies of the form summed over'))
+            else:
+                bad_paths.append((p, ' / '.join(sorted(bad))))
+        n += 1
+        if bad_paths and not live:
+            rep.notes.append(f'{d.key}: returns {bad_paths[0][1]} for a {dt} line, but nothing reads or requires the line')
+            continue
+        p0 = bad_paths[0] if bad_paths else None
+        rep.ob('R10.10', d.key, not bad_paths,
+               f'{d.key} is declared as a {dt} line but its definition can return {p0[1] if p0 else ""} (`{_short(p0[0].outcome.value) if p0 else ""}`'
+               f'{(" when " + _guards(p0[0])) if p0 and p0[0].guards else ""}): the value is rejected with a TypeError and the solve aborts instead of computing the line', d.where)
+    rep.floor('line definitions type-checked against their declaration', n, 1500)
+    return n
+
+
+class _All(frozenset):
+    def __contains__(self, x):
+        return True
+
+
+_ALL = _All()
+
+
+def _short(v):
+    s = repr(v)
+    return s if len(s) < 120 else s[:117] + '...'
